@@ -367,6 +367,12 @@ def rule_C6d(ctx, prog, label, rule='C6d'):
                 txt = pp(n.ast)
                 if ('%s->nrows == 0' % C.name) in txt or ('%s->ncols == 0' % C.name) in txt:
                     empty_edges.add((n.id, True))
+                else:
+                    # the same test through a local that holds the dimension (`rci_t const m = C->nrows; if (m == 0 ...`)
+                    for x in n.ast.walk():
+                        if x.kind == 'BinaryOperator' and x.op == '==' and int_value(x.kids[1]) == 0 and \
+                                repr(fs.sym(x.kids[0])) in ('%s.nrows' % C.name, '%s.ncols' % C.name):
+                            empty_edges.add((n.id, True))
         seen = set()
         st = [g.entry]
         bad = False
@@ -539,4 +545,73 @@ def rule_C6e(ctx, prog, label, rule='C6e'):
                           '`%s` accumulates into rows [%r, %r) x columns [%r, %r) of the destination, which no earlier call has overwritten: with a caller-supplied, '
                           'non-zero destination its previous contents stay in the product' % (pp(c)[:60], r[0], r[2], r[1], r[3]), {}, label))
     rr.require_floor(4, 'accumulating calls into blocks of an overwritten destination')
+    return rr
+
+
+# ---------------------------------------------------------------------------------------------- C6f
+ACCUMULATE_ENTRIES = ('mzd_addmul', '_mzd_addmul', 'mzd_addmul_m4rm', 'mzd_addmul_naive', 'mzd_addmul_mp', '_mzd_addmul_even',
+                      '_mzd_addsqr_even', '_mzd_addmul_mp4', '_mzd_addmul_weird_weird', '_mzd_addmul_weird_even', '_mzd_addmul_even_weird')
+
+
+def rule_C6f(ctx, prog, label, rule='C6f'):
+    """accumulating products C += A*B never overwrite: the destination (or a window of it) is not handed as destination to
+    an overwriting call - mzd_set_ui, mzd_copy, an overwriting product, or a product kernel with its clear flag TRUE.  The
+    solver's consistency check adds H*Y1 to the lower rows of B with mzd_addmul; an addmul that clears them (for an empty
+    inner dimension, say) turns every right-hand side into a consistent one."""
+    from .symbolic import FuncSym
+    rr = RuleResult(rule, 'accumulating products never hand their destination to an overwriting call')
+    nf = 0
+    for name in ACCUMULATE_ENTRIES:
+        f = prog.funcs.get(name)
+        if f is None or f.body is None:
+            continue
+        nf += 1
+        fs = FuncSym(f)
+        C = f.params[0]
+        dests = {C.id}
+        grew = True
+        while grew:
+            grew = False
+            for vid, ds in fs.defs.items():
+                if vid in dests:
+                    continue
+                for d in ds:
+                    d0 = strip(d, casts=True)
+                    if d0 is not None and d0.kind == 'CallExpr' and callee_name(d0) in ('mzd_init_window',) and len(d0.kids) > 1 and \
+                            strip(d0.kids[1], casts=True).kind == 'DeclRefExpr' and strip(d0.kids[1], casts=True).refid in dests:
+                        dests.add(vid)
+                        grew = True
+        for c in f.body.find('CallExpr'):
+            cn = callee_name(c)
+            if not cn or len(c.kids) < 2:
+                continue
+            a0 = strip(c.kids[1], casts=True)
+            if not (a0.kind == 'DeclRefExpr' and a0.refid in dests):
+                continue
+            rr.instances += 1
+            over = None
+            if cn in ('mzd_set_ui', 'mzd_copy', 'mzd_randomize', 'mzd_submatrix', 'mzd_transpose'):
+                over = '%s overwrites its first argument' % cn
+                if cn == 'mzd_copy' and len(c.kids) > 2:
+                    # copy-in / copy-out: `Cbar = mzd_copy(NULL, C); ...accumulate into Cbar...; mzd_copy(C, Cbar)`
+                    src = strip(c.kids[2], casts=True)
+                    if src.kind == 'DeclRefExpr' and src.refkind == 'VarDecl':
+                        for d in fs.defs.get(src.refid, []):
+                            d0 = strip(d, casts=True)
+                            if d0 is not None and d0.kind == 'CallExpr' and callee_name(d0) == 'mzd_copy' and len(d0.kids) > 2 and \
+                                    strip(d0.kids[2], casts=True).kind == 'DeclRefExpr' and strip(d0.kids[2], casts=True).refid in dests:
+                                over = None
+            elif cn in CLEAR_PARAM:
+                idx = CLEAR_PARAM[cn]
+                fl = int_value(c.kids[1 + idx]) if len(c.kids) > 1 + idx else None
+                if fl == 1:
+                    over = '%s is called with its clear flag TRUE' % cn
+            elif cn in _OVERWRITERS and cn not in _ACCUMULATORS:
+                over = '%s computes a product into its first argument, discarding what it held' % cn
+            rr.ob(over is None, dict(function=name, call=pp(c)[:70]),
+                  Finding(rule, '%s|%s|%s' % (rule, name, cn), c.loc, name,
+                          '%s accumulates (C += A*B) but hands its destination to `%s`: %s - the previous contents of C are lost on this path'
+                          % (name, pp(c)[:60], over), {}, label))
+    rr.extra['functions'] = nf
+    rr.require_floor(8, 'calls on the destination of accumulating products')
     return rr
